@@ -145,6 +145,8 @@ class Check:
         for _ in range(k_n):
             kind = rnd.choice(POOL)
             consumers.append({'kind': kind, 'params': C.gen_params(rnd, kind)})
+            if rnd.random() < 0.2 and C.KINDS[kind].streaming:
+                consumers[-1]['reuse_buffers'] = True        # driver-style application: one set of sample buffers
         return {'world': world, 'consumers': consumers, 'sched_seed': rnd.randrange(1 << 30),
                 'lag_bound': rnd.choice([1, 4]), 'rng_seed': rnd.randrange(1 << 30)}
 
